@@ -736,3 +736,403 @@ Proof.
   destruct (exec_ck pmax ck0 tr (init ms) s (Inv_init ms) (ck_inv_init ck0 ms Hall) He) as [C1 C2].
   split; [exact C1|]. intros p k c Hr. destruct (result_of_lookup _ _ _ _ Hr) as (ps & Hp & Hq). eauto.
 Qed.
+
+(* ---- frame facts used by the monitor-soundness proof ---- *)
+Lemma jmono_trans s1 s2 s3 : jmono s1 s2 -> jmono s2 s3 -> jmono s1 s3.
+Proof.
+  intros H1 H2 j js Hj. destruct (H1 j js Hj) as (js2 & Hj2 & G1 & A1 & C1 & M1).
+  destruct (H2 j js2 Hj2) as (js3 & Hj3 & G2 & A2 & C2 & M2).
+  exists js3. repeat split; auto; congruence.
+Qed.
+
+Lemma juror_process_jmono s r j key vd s' :
+  juror_process s r j key = Some (vd, s') -> jmono s s'.
+Proof.
+  intros H. destruct (juror_process_spec _ _ _ _ _ _ H) as (js & js' & Hj & -> & Hc & Hm & Ha & Hg & _).
+  eapply jmono_set_jur; eauto.
+Qed.
+
+Lemma step_jmono pmax s e s' : step pmax s e = Some s' -> jmono s s'.
+Proof.
+  intros Hs.
+  destruct e as [a v|p a r|p a|r v|r i key how vd|r i key vd|i key vd|r key ck err lost|p ok key ck];
+    simpl in Hs.
+  - inversion Hs; subst. apply jmono_same_jur. done.
+  - repeat case_match; simplify_eq; apply jmono_same_jur; done.
+  - repeat case_match; simplify_eq; apply jmono_refl.
+  - repeat case_match; simplify_eq; apply jmono_same_jur; done.
+  - unfold record_answer in Hs.
+    destruct (s_runs s !! r) as [rn|]; [|discriminate].
+    destruct (_ && _ && _ && _); [|discriminate].
+    destruct (bool_decide (how = 0) || bool_decide (how = 2)).
+    { destruct (juror_process s r i key) as [[vd' s1]|] eqn:Ejp; [|discriminate].
+      destruct (bool_decide (vd = vd')); [|discriminate]. inversion Hs; subst s'.
+      eapply jmono_trans; [eapply juror_process_jmono; eauto|]. apply jmono_same_jur. done. }
+    destruct (bool_decide (how = 1)). { inversion Hs; subst s'. apply jmono_same_jur. done. }
+    destruct (bool_decide (how = 3)).
+    { destruct (s_jur s !! i); [|discriminate]. destruct (bool_decide (vd = VCtx)); [|discriminate].
+      inversion Hs; subst s'. apply jmono_same_jur. done. }
+    destruct (bool_decide (how = 4)); [|discriminate]. inversion Hs; subst s'. apply jmono_same_jur. done.
+  - destruct (remove_first (r, i, key) (s_late s)) as [l'|]; [|discriminate].
+    destruct (juror_process (set_late s l') r i key) as [[vd' s1]|] eqn:Ejp.
+    + destruct (bool_decide (vd = vd')); [|discriminate]. inversion Hs; subst s'.
+      eapply jmono_trans; [|eapply juror_process_jmono; eauto]. apply jmono_same_jur. done.
+    + destruct (bool_decide (vd = VNone)); [|discriminate]. inversion Hs; subst s'. apply jmono_same_jur. done.
+  - destruct (juror_process s 0 i key) as [[vd' s1]|] eqn:Ejp.
+    + destruct (bool_decide (vd = vd')); [|discriminate]. inversion Hs; subst s'.
+      eapply juror_process_jmono; eauto.
+    + destruct (bool_decide (vd = VNone)); [|discriminate]. inversion Hs; subst s'. apply jmono_refl.
+  - repeat case_match; simplify_eq; apply jmono_same_jur; done.
+  - destruct (p_done (pl_of s p)); [discriminate|].
+    destruct (p_result (pl_of s p)) as [[k c]|] eqn:Ep.
+    + destruct (ok && bool_decide (key = k) && bool_decide (ck = c)); [|discriminate].
+      destruct (s_jur s !! p) eqn:Ej; [discriminate|]. inversion Hs; subst s'.
+      intros j js Hj. simpl. destruct (decide (j = p)) as [->|Hne]; [congruence|].
+      rewrite lookup_insert_ne by done. exists js. auto.
+    + destruct (negb ok); [|discriminate]. inversion Hs; subst s'. apply jmono_same_jur. done.
+Qed.
+
+Lemma max_key_ge v k : k ∈ map vkey v -> k <= max_key v.
+Proof.
+  unfold max_key. induction v as [|e v IH]; simpl; intros H.
+  - inversion H.
+  - apply elem_of_cons in H. destruct H as [->|H]; [lia|]. specialize (IH H). lia.
+Qed.
+
+Lemma err_matches_zero x err : err_matches x err = true -> (err = 0 <-> x = 0).
+Proof.
+  unfold err_matches. intros H.
+  destruct (bool_decide (x = 0)) eqn:E0.
+  - apply bool_decide_eq_true in E0. apply bool_decide_eq_true in H. tauto.
+  - apply bool_decide_eq_false in E0.
+    destruct (bool_decide (x = 2)).
+    + apply bool_decide_eq_true in H. subst. split; [discriminate|tauto].
+    + split; [|tauto]. intros ->. simpl in H. discriminate.
+Qed.
+
+(* how one step changes the table of runs: at most the run the event names, and only in
+   ways that keep what the later proofs rely on *)
+Definition run_evolves (rn rn' : run) : Prop :=
+  r_pledge rn' = r_pledge rn /\ r_member rn' = r_member rn /\
+  (forall x l, r_phase rn = PhDone x l -> rn' = rn) /\
+  (admitted_run rn = true ->
+     admitted_run rn' = true /\ r_prop rn' = r_prop rn /\ r_snap rn' = r_snap rn /\ r_asked rn' = r_asked rn).
+
+Lemma run_evolves_refl rn : run_evolves rn rn.
+Proof. repeat split; auto. Qed.
+
+Lemma step_runs pmax s e s' :
+  step pmax s e = Some s' ->
+  forall r rn, s_runs s !! r = Some rn ->
+    exists rn', s_runs s' !! r = Some rn' /\ run_evolves rn rn'.
+Proof.
+  intros Hs r0 rn0 Hr0.
+  assert (Hsame : forall s2, s_runs s2 = s_runs s ->
+            exists rn', s_runs s2 !! r0 = Some rn' /\ run_evolves rn0 rn').
+  { intros s2 E. exists rn0. rewrite E. split; [done|apply run_evolves_refl]. }
+  assert (Hupd : forall s0 r rn', s_runs s0 = s_runs s ->
+            (r = r0 -> run_evolves rn0 rn') ->
+            exists rn2, s_runs (set_run s0 r rn') !! r0 = Some rn2 /\ run_evolves rn0 rn2).
+  { intros s0 r rn' E Hev. simpl. rewrite E. destruct (decide (r = r0)) as [->|Hne].
+    - rewrite lookup_insert. eauto.
+    - rewrite lookup_insert_ne by done. exists rn0. split; [done|apply run_evolves_refl]. }
+  destruct e as [a v|p a r|p a|r v|r i key how vd|r i key vd|i key vd|r key ck err lost|p ok key ck];
+    simpl in Hs.
+  - inversion Hs; subst. apply Hsame. done.
+  - destruct (s_runs s !! r) as [x|] eqn:Er; [discriminate|].
+    destruct (s_jur s !! a); [|discriminate].
+    destruct (_ && _); [|discriminate]. inversion Hs; subst s'.
+    apply Hupd; [done|]. intros ->. congruence.
+  - destruct (_ && _); [|discriminate]. inversion Hs; subst. apply Hsame. done.
+  - destruct (s_runs s !! r) as [rn|] eqn:Er; [|discriminate].
+    destruct (s_jur s !! r_member rn) as [ms|]; [|discriminate].
+    destruct (bool_decide (r_phase rn = PhIdle)) eqn:E1; [|discriminate].
+    destruct (_ && _); [|discriminate]. simpl in Hs. inversion Hs; subst s'.
+    apply bool_decide_eq_true in E1.
+    apply Hupd; [done|]. intros ->. rewrite Er in Hr0. inversion Hr0; subst rn0.
+    unfold run_evolves, admitted_run; simpl. rewrite E1. repeat split; auto; discriminate.
+  - destruct (s_runs s !! r) as [rn|] eqn:Er; [|discriminate].
+    destruct (bool_decide (r_phase rn = PhConsult)) eqn:E1; [|discriminate].
+    destruct (_ && _ && _); [|discriminate]. simpl in Hs.
+    apply bool_decide_eq_true in E1.
+    assert (Hra : forall s0 ok, s_runs s0 = s_runs s ->
+              exists rn2, s_runs (record_answer s0 r rn i ok) !! r0 = Some rn2 /\ run_evolves rn0 rn2).
+    { intros s0 ok E. unfold record_answer. apply Hupd; [done|].
+      intros ->. rewrite Er in Hr0. inversion Hr0; subst rn0.
+      unfold run_evolves, admitted_run; simpl. rewrite E1. repeat split; auto; discriminate. }
+    destruct (bool_decide (how = 0) || bool_decide (how = 2)).
+    { destruct (juror_process s r i key) as [[vd' s1]|] eqn:Ejp; [|discriminate].
+      destruct (bool_decide (vd = vd')); [|discriminate]. inversion Hs; subst s'.
+      apply Hra.
+      destruct (juror_process_spec _ _ _ _ _ _ Ejp) as (js & js' & Hj & -> & _). done. }
+    destruct (bool_decide (how = 1)). { inversion Hs. apply Hra. done. }
+    destruct (bool_decide (how = 3)).
+    { destruct (s_jur s !! i); [|discriminate]. destruct (bool_decide (vd = VCtx)); [|discriminate].
+      inversion Hs. apply Hra. done. }
+    destruct (bool_decide (how = 4)); [|discriminate]. inversion Hs. apply Hra. done.
+  - destruct (remove_first (r, i, key) (s_late s)) as [l'|]; [|discriminate].
+    destruct (juror_process (set_late s l') r i key) as [[vd' s1]|] eqn:Ejp.
+    + destruct (bool_decide (vd = vd')); [|discriminate]. inversion Hs; subst s'.
+      destruct (juror_process_spec _ _ _ _ _ _ Ejp) as (js & js' & Hj & -> & _). apply Hsame. done.
+    + destruct (bool_decide (vd = VNone)); [|discriminate]. inversion Hs; subst s'. apply Hsame. done.
+  - destruct (juror_process s 0 i key) as [[vd' s1]|] eqn:Ejp.
+    + destruct (bool_decide (vd = vd')); [|discriminate]. inversion Hs; subst s'.
+      destruct (juror_process_spec _ _ _ _ _ _ Ejp) as (js & js' & Hj & -> & _). apply Hsame. done.
+    + destruct (bool_decide (vd = VNone)); [|discriminate]. inversion Hs; subst s'. apply Hsame. done.
+  - destruct (s_runs s !! r) as [rn|] eqn:Er; [|discriminate].
+    destruct (s_jur s !! r_member rn) as [ms|]; [|discriminate].
+    set (res := match r_phase rn with
+                | PhEnd x => Some x
+                | PhIdle => if bool_decide (r_rounds rn = j_max ms) then Some 1 else None
+                | _ => None end) in Hs.
+    assert (Hph : forall y l, r_phase rn <> PhDone y l).
+    { intros y l Hp. subst res. rewrite Hp in Hs. discriminate. }
+    assert (Hadm : admitted_run rn = true -> res = Some 0).
+    { subst res. unfold admitted_run. destruct (r_phase rn) as [| |y|y l] eqn:Ep; try discriminate.
+      all: try (intros _; exfalso; eapply Hph; eauto; fail).
+      destruct y; [done|discriminate]. }
+    destruct res as [x|] eqn:Eres; [|discriminate].
+    destruct (_ && _ && _); [|discriminate]. simpl in Hs.
+    assert (Hev : r = r0 -> run_evolves rn0 (Run (r_pledge rn) (r_member rn) (r_prop rn) (r_base rn)
+                     (r_rounds rn) (r_snap rn) (r_asked rn) (PhDone x lost))).
+    { intros ->. rewrite Er in Hr0. inversion Hr0; subst rn0.
+      unfold run_evolves; simpl. split; [done|]. split; [done|]. split.
+      - intros y l Hp. exfalso. eapply Hph; eauto.
+      - intros Ha. specialize (Hadm Ha). inversion Hadm; subst x. unfold admitted_run. simpl. auto. }
+    destruct (_ && _ && _); inversion Hs; subst s'.
+    + apply (Hupd s r _ eq_refl Hev).
+    + apply (Hupd s r _ eq_refl Hev).
+  - destruct (p_done (pl_of s p)); [discriminate|].
+    destruct (p_result (pl_of s p)) as [[k c]|] eqn:Ep.
+    + destruct (ok && bool_decide (key = k) && bool_decide (ck = c)); [|discriminate].
+      destruct (s_jur s !! p) eqn:Ej; [discriminate|]. inversion Hs; subst s'. apply Hsame. done.
+    + destruct (negb ok); [|discriminate]. inversion Hs; subst s'. apply Hsame. done.
+Qed.
+
+(* how one step changes the pledge table *)
+Lemma step_pl pmax s e s' :
+  step pmax s e = Some s' ->
+  forall p, (p_done (pl_of s p) = true -> p_done (pl_of s' p) = true) /\
+            (forall x, result_of s p = Some x -> result_of s' p = Some x).
+Proof.
+  intros Hs p0.
+  assert (Hsame : forall s2, s_pl s2 = s_pl s ->
+            (p_done (pl_of s p0) = true -> p_done (pl_of s2 p0) = true) /\
+            (forall x, result_of s p0 = Some x -> result_of s2 p0 = Some x)).
+  { intros s2 E. unfold result_of, pl_of. rewrite E. auto. }
+  destruct e as [a v|p a r|p a|r v|r i key how vd|r i key vd|i key vd|r key ck err lost|p ok key ck];
+    simpl in Hs.
+  - inversion Hs; subst. apply Hsame. done.
+  - repeat case_match; simplify_eq; apply Hsame; done.
+  - repeat case_match; simplify_eq; apply Hsame; done.
+  - repeat case_match; simplify_eq; apply Hsame; done.
+  - unfold record_answer in Hs.
+    destruct (s_runs s !! r) as [rn|]; [|discriminate].
+    destruct (_ && _ && _ && _); [|discriminate].
+    destruct (bool_decide (how = 0) || bool_decide (how = 2)).
+    { destruct (juror_process s r i key) as [[vd' s1]|] eqn:Ejp; [|discriminate].
+      destruct (bool_decide (vd = vd')); [|discriminate]. inversion Hs; subst s'.
+      destruct (juror_process_spec _ _ _ _ _ _ Ejp) as (js & js' & Hj & -> & _). apply Hsame. done. }
+    destruct (bool_decide (how = 1)). { inversion Hs; subst s'. apply Hsame. done. }
+    destruct (bool_decide (how = 3)).
+    { destruct (s_jur s !! i); [|discriminate]. destruct (bool_decide (vd = VCtx)); [|discriminate].
+      inversion Hs; subst s'. apply Hsame. done. }
+    destruct (bool_decide (how = 4)); [|discriminate]. inversion Hs; subst s'. apply Hsame. done.
+  - destruct (remove_first (r, i, key) (s_late s)) as [l'|]; [|discriminate].
+    destruct (juror_process (set_late s l') r i key) as [[vd' s1]|] eqn:Ejp.
+    + destruct (bool_decide (vd = vd')); [|discriminate]. inversion Hs; subst s'.
+      destruct (juror_process_spec _ _ _ _ _ _ Ejp) as (js & js' & Hj & -> & _). apply Hsame. done.
+    + destruct (bool_decide (vd = VNone)); [|discriminate]. inversion Hs; subst s'. apply Hsame. done.
+  - destruct (juror_process s 0 i key) as [[vd' s1]|] eqn:Ejp.
+    + destruct (bool_decide (vd = vd')); [|discriminate]. inversion Hs; subst s'.
+      destruct (juror_process_spec _ _ _ _ _ _ Ejp) as (js & js' & Hj & -> & _). apply Hsame. done.
+    + destruct (bool_decide (vd = VNone)); [|discriminate]. inversion Hs; subst s'. apply Hsame. done.
+  - destruct (s_runs s !! r) as [rn|] eqn:Er; [|discriminate].
+    destruct (s_jur s !! r_member rn) as [ms|]; [|discriminate].
+    destruct (match r_phase rn with PhEnd x => Some x | PhIdle => _ | _ => None end) as [x|]; [|discriminate].
+    destruct (_ && _ && _); [|discriminate]. simpl in Hs.
+    destruct (bool_decide (x = 0) && negb lost && bool_decide (p_result (pl_of s (r_pledge rn)) = None)) eqn:Eb;
+      inversion Hs; subst s'; [|apply Hsame; done].
+    apply andb_true_iff in Eb. destruct Eb as [_ Eb]. apply bool_decide_eq_true in Eb.
+    unfold result_of, pl_of in *. simpl.
+    destruct (decide (p0 = r_pledge rn)) as [->|Hne].
+    + rewrite lookup_insert. simpl. split; [auto|]. intros y Hy. rewrite Eb in Hy. discriminate.
+    + rewrite lookup_insert_ne by done. auto.
+  - destruct (p_done (pl_of s p)) eqn:Ed; [discriminate|].
+    destruct (p_result (pl_of s p)) as [[k c]|] eqn:Ep.
+    + destruct (ok && bool_decide (key = k) && bool_decide (ck = c)); [|discriminate].
+      destruct (s_jur s !! p) eqn:Ej; [discriminate|]. inversion Hs; subst s'.
+      unfold result_of, pl_of in *. simpl.
+      destruct (decide (p0 = p)) as [->|Hne].
+      * rewrite lookup_insert. simpl. split; [auto|]. intros y Hy. congruence.
+      * rewrite lookup_insert_ne by done. auto.
+    + destruct (negb ok); [|discriminate]. inversion Hs; subst s'.
+      unfold result_of, pl_of in *. simpl.
+      destruct (decide (p0 = p)) as [->|Hne].
+      * rewrite lookup_insert. simpl. split; [auto|]. intros y Hy. congruence.
+      * rewrite lookup_insert_ne by done. auto.
+Qed.
+
+(* ---- inversion of accepted events: the successor state in closed form ---- *)
+Lemma step_EPStart_inv pmax s p a r s' :
+  step pmax s (EPStart p a r) = Some s' ->
+  s_runs s !! r = None /\ s' = set_run s r (Run p a 0 0 0%nat [] [] PhIdle).
+Proof.
+  simpl. destruct (s_runs s !! r); [discriminate|]. destruct (s_jur s !! a); [|discriminate].
+  destruct (_ && _); [|discriminate]. intros H. inversion H. auto.
+Qed.
+
+Lemma step_ESnap_inv pmax s r v s' :
+  step pmax s (ESnap r v) = Some s' ->
+  exists rn prop base ph, s_runs s !! r = Some rn /\ r_phase rn = PhIdle /\ prop <> 0 /\
+    s' = set_run s r (Run (r_pledge rn) (r_member rn) prop base (S (r_rounds rn)) v [] ph).
+Proof.
+  simpl. destruct (s_runs s !! r) as [rn|] eqn:Er; [|discriminate].
+  destruct (s_jur s !! r_member rn); [|discriminate].
+  destruct (bool_decide (r_phase rn = PhIdle)) eqn:E1; [|discriminate].
+  destruct (_ && _); [|discriminate]. simpl. intros H. inversion H.
+  apply bool_decide_eq_true in E1.
+  eexists rn, _, _, _. split; [done|]. split; [done|]. split; [|reflexivity].
+  destruct (bool_decide (r_prop rn = 0)); lia.
+Qed.
+
+Lemma step_EReq_inv pmax s r j key how vd s' :
+  step pmax s (EReq r j key how vd) = Some s' ->
+  exists rn s1 ok, s_runs s !! r = Some rn /\ r_phase rn = PhConsult /\ key = r_prop rn /\
+    s' = record_answer s1 r rn j ok /\
+    s_runs s1 = s_runs s /\ s_views s1 = s_views s /\ s_pl s1 = s_pl s /\
+    (s_jur s1 = s_jur s \/ juror_process s r j key = Some (vd, s1)) /\
+    (ok = true -> how = 0 /\ vd = VApprove) /\
+    (how = 0 \/ how = 2 -> juror_process s r j key = Some (vd, s1)).
+Proof.
+  simpl. destruct (s_runs s !! r) as [rn|] eqn:Er; [|discriminate].
+  destruct (bool_decide (r_phase rn = PhConsult)) eqn:E1; [|discriminate].
+  destruct (bool_decide (key = r_prop rn)) eqn:E2; [|discriminate].
+  destruct (_ && _); [|discriminate]. simpl.
+  apply bool_decide_eq_true in E1. apply bool_decide_eq_true in E2.
+  destruct (bool_decide (how = 0) || bool_decide (how = 2)) eqn:Eh.
+  { destruct (juror_process s r j key) as [[vd' s1]|] eqn:Ejp; [|discriminate].
+    destruct (bool_decide (vd = vd')) eqn:Ev; [|discriminate]. apply bool_decide_eq_true in Ev. subst vd'.
+    intros H. inversion H.
+    destruct (juror_process_spec _ _ _ _ _ _ Ejp) as (js & js' & Hj & Hs1 & _).
+    exists rn, s1, (bool_decide (how = 0) && bool_decide (vd = VApprove)).
+    subst s1. simpl. repeat split; auto.
+    - apply andb_true_iff in H0. destruct H0 as [H0 _]. apply bool_decide_eq_true in H0. done.
+    - apply andb_true_iff in H0. destruct H0 as [_ H0]. apply bool_decide_eq_true in H0. done. }
+  apply orb_false_iff in Eh. destruct Eh as [Eh0 Eh2].
+  apply bool_decide_eq_false in Eh0. apply bool_decide_eq_false in Eh2.
+  assert (Hno : how = 0 \/ how = 2 -> juror_process s r j key = Some (vd, s)) by (intros [|]; done).
+  destruct (bool_decide (how = 1)).
+  { intros H. inversion H. exists rn, s, false. repeat split; auto; discriminate. }
+  destruct (bool_decide (how = 3)).
+  { destruct (s_jur s !! j); [|discriminate]. destruct (bool_decide (vd = VCtx)); [|discriminate].
+    intros H. inversion H. exists rn, s, false. repeat split; auto; discriminate. }
+  destruct (bool_decide (how = 4)); [|discriminate].
+  intros H. inversion H. exists rn, (set_late s (s_late s ++ [(r, j, r_prop rn)])), false.
+  subst key. repeat split; auto; try discriminate. intros [|]; done.
+Qed.
+
+Lemma juror_process_frame s r j key vd s1 :
+  juror_process s r j key = Some (vd, s1) ->
+  s_runs s1 = s_runs s /\ s_views s1 = s_views s /\ s_pl s1 = s_pl s /\
+  (forall a, j_ck <$> (s_jur s1 !! a) = j_ck <$> (s_jur s !! a)).
+Proof.
+  intros H. destruct (juror_process_spec _ _ _ _ _ _ H) as (js & js' & Hj & -> & Hc & _).
+  simpl. repeat split; auto. intros a. destruct (decide (a = j)) as [->|Hne].
+  - rewrite lookup_insert, Hj. simpl. congruence.
+  - rewrite lookup_insert_ne by done. done.
+Qed.
+
+Lemma juror_process_approve s r j key s1 :
+  juror_process s r j key = Some (VApprove, s1) ->
+  granted_to s1 j r key /\ max_key (view_of s j) < key.
+Proof.
+  unfold juror_process. intros H.
+  destruct (s_jur s !! j) as [js|] eqn:Ej; [|discriminate].
+  destruct (juror_verdict (j_appr js) (view_of s j) key) as [vd0 appr'] eqn:Ev.
+  inversion H; subst vd0 s1; clear H.
+  destruct (juror_verdict_spec _ _ _ _ _ Ev) as (_ & Hb & _).
+  destruct (Hb eq_refl) as (_ & _ & Hlt). split; [|done].
+  eexists _, (max_key (view_of s j)). simpl. rewrite lookup_insert. split; [reflexivity|]. simpl.
+  apply elem_of_app. right. apply elem_of_list_singleton. done.
+Qed.
+
+Lemma step_ELate_inv pmax s r j key vd s' :
+  step pmax s (ELate r j key vd) = Some s' ->
+  exists l', juror_process (set_late s l') r j key = Some (vd, s') \/ (s' = set_late s l' /\ vd = VNone).
+Proof.
+  simpl. destruct (remove_first (r, j, key) (s_late s)) as [l'|]; [|discriminate].
+  exists l'. destruct (juror_process (set_late s l') r j key) as [[vd' s1]|].
+  - destruct (bool_decide (vd = vd')) eqn:E; [|discriminate]. apply bool_decide_eq_true in E. subst.
+    inversion H. auto.
+  - destruct (bool_decide (vd = VNone)) eqn:E; [|discriminate]. apply bool_decide_eq_true in E.
+    inversion H. auto.
+Qed.
+
+Lemma step_EProbe_inv pmax s j key vd s' :
+  step pmax s (EProbe j key vd) = Some s' ->
+  juror_process s 0 j key = Some (vd, s') \/ s' = s.
+Proof.
+  simpl. destruct (juror_process s 0 j key) as [[vd' s1]|].
+  - destruct (bool_decide (vd = vd')) eqn:E; [|discriminate]. apply bool_decide_eq_true in E. subst.
+    intros H. inversion H. auto.
+  - destruct (bool_decide (vd = VNone)); [|discriminate]. intros H. inversion H. auto.
+Qed.
+
+Lemma step_EREnd_inv pmax s r key ck err lost s' :
+  step pmax s (EREnd r key ck err lost) = Some s' ->
+  exists rn ms x, s_runs s !! r = Some rn /\ s_jur s !! r_member rn = Some ms /\
+    (x = 0 -> r_phase rn = PhEnd 0) /\ (forall y l, r_phase rn <> PhDone y l) /\
+    key = r_prop rn /\ ck = j_ck ms /\ (err = 0 <-> x = 0) /\
+    let rn' := Run (r_pledge rn) (r_member rn) (r_prop rn) (r_base rn) (r_rounds rn) (r_snap rn)
+                   (r_asked rn) (PhDone x lost) in
+    ((s' = set_run s r rn' /\ ~ (x = 0 /\ lost = false /\ result_of s (r_pledge rn) = None)) \/
+     (s' = set_pl (set_run s r rn') (r_pledge rn) (Pst (Some (key, ck)) (p_done (pl_of s (r_pledge rn)))) /\
+      x = 0 /\ lost = false /\ result_of s (r_pledge rn) = None)).
+Proof.
+  simpl. destruct (s_runs s !! r) as [rn|] eqn:Er; [|discriminate].
+  destruct (s_jur s !! r_member rn) as [ms|] eqn:Em; [|discriminate].
+  set (res := match r_phase rn with
+              | PhEnd x => Some x
+              | PhIdle => if bool_decide (r_rounds rn = j_max ms) then Some 1 else None
+              | _ => None end).
+  intros Hs.
+  assert (Hres0 : res = Some 0 -> r_phase rn = PhEnd 0).
+  { subst res. destruct (r_phase rn) as [| |y|y l]; try discriminate.
+    - destruct (bool_decide (r_rounds rn = j_max ms)); discriminate.
+    - intros E. inversion E. done. }
+  assert (Hph : forall y l, r_phase rn <> PhDone y l).
+  { intros y l Hp. subst res. rewrite Hp in Hs. discriminate. }
+  destruct res as [x|] eqn:Eres; [|discriminate].
+  destruct (bool_decide (key = r_prop rn)) eqn:E1; [|discriminate].
+  destruct (bool_decide (ck = j_ck ms)) eqn:E2; [|discriminate].
+  destruct (err_matches x err) eqn:E3; [|discriminate]. simpl in Hs.
+  apply bool_decide_eq_true in E1. apply bool_decide_eq_true in E2.
+  exists rn, ms, x. split; [done|]. split; [done|].
+  split; [intros ->; auto|]. split; [done|]. split; [done|]. split; [done|].
+  split; [apply err_matches_zero; done|]. simpl.
+  destruct (bool_decide (x = 0)) eqn:Ex; simpl in Hs.
+  - apply bool_decide_eq_true in Ex. destruct lost; simpl in Hs.
+    + inversion Hs. left. split; [done|]. intros (_ & Hl & _). discriminate.
+    + destruct (bool_decide (p_result (pl_of s (r_pledge rn)) = None)) eqn:Erp; inversion Hs.
+      * apply bool_decide_eq_true in Erp. right. subst. auto.
+      * apply bool_decide_eq_false in Erp. left. split; [done|]. intros (_ & _ & Hn). done.
+  - apply bool_decide_eq_false in Ex. inversion Hs. left. split; [done|]. intros (Hx & _). done.
+Qed.
+
+Lemma step_EPEnd_inv pmax s p ok key ck s' :
+  step pmax s (EPEnd p ok key ck) = Some s' ->
+  p_done (pl_of s p) = false /\
+  ((ok = true /\ result_of s p = Some (key, ck) /\ s_jur s !! p = None /\
+    s' = set_jur (set_pl s p (Pst (Some (key, ck)) true)) p (Jst [] [] ck (pmax p))) \/
+   (ok = false /\ result_of s p = None /\ s' = set_pl s p (Pst None true))).
+Proof.
+  unfold result_of. simpl. destruct (p_done (pl_of s p)); [discriminate|]. split; [done|].
+  destruct (p_result (pl_of s p)) as [[k c]|].
+  - destruct ok; [|discriminate]. simpl in H.
+    destruct (bool_decide (key = k)) eqn:E1; [|discriminate].
+    destruct (bool_decide (ck = c)) eqn:E2; [|discriminate]. simpl in H.
+    apply bool_decide_eq_true in E1. apply bool_decide_eq_true in E2. subst.
+    destruct (s_jur s !! p); [discriminate|]. inversion H. left. auto.
+  - destruct ok; [discriminate|]. inversion H. right. auto.
+Qed.
